@@ -251,6 +251,28 @@ def main():
                             h.violation(f"roundtrip:{fmt}:{mode}", f"{tag}: tile written as {bmode} reads back with mode {r_none.mode.name}", input={"format": fmt, "mode": mode})
                         elif not same(got, want):
                             h.violation(f"roundtrip:{fmt}:{mode}", f"{tag}: tile reads back with different pixels", input={"format": fmt, "mode": mode})
+                        else:
+                            # histories on the object that came out of read_image: store it at ANOTHER position — it reads back there; then
+                            # clear the original tile inside the read-modify-write interface — its file goes away
+                            try:
+                                pos2 = Pos(2, (pos.x + 1) % 4, pos.y)
+                                with warnings.catch_warnings():
+                                    warnings.simplefilter("ignore")
+                                    pio.write_image(pos2, r_none, **kw)
+                                    back2 = pio.read_image(pos2, default="none", **kw)
+                                    if back2 is None or not same(back2.asarray(), want):
+                                        h.violation(f"history:rewrite:{mode}", f"{tag}: the tile obtained from read_image, written at another position, {'is absent there' if back2 is None else 'reads back with different pixels'}",
+                                                    input={"format": fmt, "mode": mode, "history": ["write", "read", "write elsewhere", "read"]})
+                                    if fmt == "png" or mode in ("U8", "I16", "I32"):
+                                        continue        # a tile loaded through PIL is not writeable in place (toasty itself only updates into it);
+                                                        # integer tiles are never "entirely undefined" for the persistence rule (see above)
+                                    with pio.update_image(pos, masked_mode=im_mode, default="masked", **kw) as basis:
+                                        basis.clear()
+                                    if os.path.exists(path):
+                                        h.violation(f"history:clear:{mode}", f"{tag}: after the tile was cleared inside update_image its file still exists", input={"format": fmt, "mode": mode, "history": ["write", "update_image: clear()"]})
+                                h.count("persist", "history-rewrite-clear")
+                            except Exception as e:
+                                h.violation(f"history:crash:{mode}", f"{tag}: rewrite / clear history raised {type(e).__name__}: {e}", input={"format": fmt, "mode": mode})
         # ---- the read-modify-write interface: two sources paint two rectangles of a tile that does not exist yet, through
         # `update_image(masked_mode=<the source's mode>, default="masked")` as the tilers do; afterwards exactly the painted pixels
         # are defined, with the sources' values, in every lossless format able to hold the mode
